@@ -183,6 +183,8 @@ struct GenCtx {
     label_rich: bool,
     created_in_txn: Vec<(u32, String, u32)>,
     deleted_in_txn: Vec<(u32, String, u32)>,
+    /// nodes that were ever given a vector (committed or not)
+    vector_ever: std::collections::BTreeSet<u32>,
 }
 
 /// Generate a whole history up front (it depends on the seed and the model only).
@@ -237,6 +239,9 @@ pub fn gen_history_from(rng: &mut Rng, k: &Knobs, start: &Model) -> Vec<Op> {
                     if let Some(more) = gen_top(rng, k, &mut cand, &mut cx) {
                         ops.extend(more);
                     }
+                }
+                if !commit && k.avoids("vector_in_abandoned_txn") {
+                    ops.retain(|o| !matches!(o, TOp::SetVector { .. }));
                 }
                 if ops.is_empty() {
                     continue;
@@ -367,6 +372,9 @@ fn gen_top(rng: &mut Rng, k: &Knobs, cand: &mut Model, cx: &mut GenCtx) -> Optio
                 return None;
             }
             let node = pick_node(rng);
+            if k.avoids("vector_node_delete") && cx.vector_ever.contains(&node) {
+                return None;
+            }
             let inc = cand.incident(node);
             let mut ops = Vec::new();
             let any_new = inc.iter().any(|e| cx.created_in_txn.contains(e));
@@ -432,6 +440,10 @@ fn gen_top(rng: &mut Rng, k: &Knobs, cand: &mut Model, cx: &mut GenCtx) -> Optio
         }
         _ => {
             let node = pick_node(rng);
+            if k.avoids("vector_reinsert") && cx.vector_ever.contains(&node) {
+                return None;
+            }
+            cx.vector_ever.insert(node);
             let dim = 3;
             let vec: Vec<f32> = (0..dim).map(|_| (rng.below(5) as f32) - 2.0).collect();
             TOp::SetVector { node, vec }
